@@ -770,16 +770,399 @@ Section Named.
   Qed.
 End Named.
 
+(* ---------- an L1 fact: BasicParser never touches the parameter list ---------- *)
+Definition res_sp {A} (x : option (list (str * str))) (r : res A) : Prop :=
+  match r with Ok u _ | Er u _ => u_sp u = x end.
+
+Lemma handleError_sp c u t f : u_sp (fst (handleError c u t f)) = u_sp u.
+Proof. unfold handleError. destruct (c_report c); reflexivity. Qed.
+
+Lemma herr_sp {A} x c u t f (k : url -> res A) :
+  u_sp u = x -> (forall u1, u_sp u1 = x -> res_sp x (k u1)) -> res_sp x (herr c u t f k).
+Proof.
+  intros Hu Hk. unfold herr. pose proof (handleError_sp c u t f) as H.
+  destruct (handleError c u t f) as [u' [e|]]; cbn [fst] in H.
+  - cbn. congruence.
+  - apply Hk. congruence.
+Qed.
+
+Lemma parseIPv4Number_sp c u input : u_sp (fst (parseIPv4Number c u input)) = u_sp u.
+Proof.
+  unfold parseIPv4Number. destruct input; [|reflexivity].
+  pose proof (handleError_sp c u IPv4EmptyPart true) as H. destruct (handleError c u IPv4EmptyPart true). exact H.
+Qed.
+
+Lemma endsInANumber_sp c u input : u_sp (fst (endsInANumber c u input)) = u_sp u.
+Proof.
+  unfold endsInANumber.
+  match goal with |- context [last_opt ?p] => destruct (last_opt p) as [[|x l]|] end; try reflexivity.
+  destruct (all_in isDigit (x :: l)); [reflexivity|].
+  pose proof (parseIPv4Number_sp c u (x :: l)) as H. destruct (parseIPv4Number c u (x :: l)) as [u' [n v|r]]; exact H.
+Qed.
+
+Lemma ipv4_numbers_sp c parts : forall u acc x, u_sp u = x -> res_sp x (ipv4_numbers c u parts acc).
+Proof.
+  induction parts as [|p rest IH]; intros u acc x Hu; cbn [ipv4_numbers].
+  - exact Hu.
+  - pose proof (parseIPv4Number_sp c u p) as H. destruct (parseIPv4Number c u p) as [u1 [n ve|r]]; cbn [fst] in H.
+    + destruct ve.
+      * apply herr_sp; [congruence|]. intros u2 H2. apply IH. exact H2.
+      * apply IH. congruence.
+    + apply herr_sp; [congruence|]. intros u2 H2. apply IH. exact H2.
+Qed.
+
+Lemma ipv4_range_warn_sp c ns : forall u k x, u_sp u = x -> (forall u1, u_sp u1 = x -> res_sp x (k u1)) ->
+  res_sp x (ipv4_range_warn c u ns k).
+Proof.
+  induction ns as [|n rest IH]; intros u k x Hu Hk; cbn [ipv4_range_warn].
+  - apply Hk. exact Hu.
+  - destruct (255 <? n).
+    + apply herr_sp; [exact Hu|]. intros u1 H1. apply IH; assumption.
+    + apply IH; assumption.
+Qed.
+
+Lemma parseIPv4_sp c u input x : u_sp u = x -> res_sp x (parseIPv4 c u input).
+Proof.
+  intros Hu. unfold parseIPv4.
+  assert (AE : forall u1 parts, u_sp u1 = x ->
+     res_sp x ((if (4 <? len parts)%Z then (fun k => herr c u1 IPv4TooManyParts true k) else (fun k => k u1))
+       (fun u =>
+         match ipv4_numbers c u parts [] with
+         | Er u e => Er u e
+         | Ok u numbers =>
+             ipv4_range_warn c u numbers (fun u =>
+               let init := drop_last numbers in
+               if existsb (fun n => 255 <? n) init then herr c u IPv4OutOfRangePart true (fun u => Ok u [])
+               else match last_opt numbers with
+                    | None => Ok u []
+                    | Some lastn =>
+                        if 256 ^ (5 - N.of_nat (length numbers)) <=? lastn
+                        then herr c u IPv4OutOfRangePart true (fun u => Ok u [])
+                        else Ok u (IPv4String (lastn + ipv4_sum init 0))
+                    end)
+         end))).
+  { intros u1 parts H1.
+    assert (K : forall u2, u_sp u2 = x -> res_sp x
+      match ipv4_numbers c u2 parts [] with
+      | Er u e => Er u e
+      | Ok u numbers =>
+             ipv4_range_warn c u numbers (fun u =>
+               let init := drop_last numbers in
+               if existsb (fun n => 255 <? n) init then herr c u IPv4OutOfRangePart true (fun u => Ok u [])
+               else match last_opt numbers with
+                    | None => Ok u []
+                    | Some lastn =>
+                        if 256 ^ (5 - N.of_nat (length numbers)) <=? lastn
+                        then herr c u IPv4OutOfRangePart true (fun u => Ok u [])
+                        else Ok u (IPv4String (lastn + ipv4_sum init 0))
+                    end)
+      end).
+    { intros u2 H2. pose proof (ipv4_numbers_sp c parts u2 [] x H2) as H.
+      destruct (ipv4_numbers c u2 parts []) as [u3 ns|u3 e]; [|exact H].
+      apply ipv4_range_warn_sp; [exact H|]. intros u4 H4. cbv zeta.
+      destruct (existsb (fun n => 255 <? n) (drop_last ns)).
+      - apply herr_sp; [exact H4|]. intros u5 H5; exact H5.
+      - destruct (last_opt ns) as [lastn|]; [|exact H4].
+        destruct (256 ^ (5 - N.of_nat (length ns)) <=? lastn); [|exact H4].
+        apply herr_sp; [exact H4|]. intros u5 H5; exact H5. }
+    destruct (4 <? len parts)%Z.
+    - apply herr_sp; [exact H1|]. exact K.
+    - apply K. exact H1. }
+  cbv zeta. destruct (last_opt (split 46 input)) as [[|a l]|].
+  - apply herr_sp; [exact Hu|]. intros u1 H1. apply AE. exact H1.
+  - apply AE. exact Hu.
+  - apply AE. exact Hu.
+Qed.
+
+Lemma parseIPv6_sp c u input x : u_sp u = x -> res_sp x (parseIPv6 c u input).
+Proof.
+  intros Hu. unfold parseIPv6. destruct (ipv6_parse (runes input)); [exact Hu|].
+  apply herr_sp; [exact Hu|]. intros u1 H1; exact H1.
+Qed.
+
+Lemma opaque_loop_sp c input l : forall u out x, u_sp u = x -> res_sp x (opaque_loop c u input l out).
+Proof.
+  induction l as [|ch rest IH]; intros u out x Hu; cbn [opaque_loop].
+  - exact Hu.
+  - cbv zeta.
+    assert (K1 : forall u1, u_sp u1 = x -> res_sp x
+      ((if negb (isURLCodePoint ch) && negb (ch =? 37)
+         then (fun k => herr c u1 InvalidURLUnit false k) else (fun k => k u1))
+        (fun u =>
+          (if (ch =? 37) && invalid_pct (ch :: rest)
+           then (fun k => herr c u InvalidURLUnit false k) else (fun k => k u))
+          (fun u => opaque_loop c u input rest (out ++ percentEncodeRune c ch (Some pes_C0)))))).
+    { intros u1 H1.
+      assert (K2 : forall u2, u_sp u2 = x -> res_sp x
+        ((if (ch =? 37) && invalid_pct (ch :: rest)
+           then (fun k => herr c u2 InvalidURLUnit false k) else (fun k => k u2))
+          (fun u => opaque_loop c u input rest (out ++ percentEncodeRune c ch (Some pes_C0))))).
+      { intros u2 H2. destruct ((ch =? 37) && invalid_pct (ch :: rest)).
+        - apply herr_sp; [exact H2|]. intros u3 H3. apply IH. exact H3.
+        - apply IH. exact H2. }
+      destruct (negb (isURLCodePoint ch) && negb (ch =? 37)).
+      - apply herr_sp; [exact H1|]. exact K2.
+      - apply K2. exact H1. }
+    destruct (isForbiddenHost ch).
+    + destruct (c_lax c); [exact Hu|]. apply herr_sp; [exact Hu|]. exact K1.
+    + apply K1. exact Hu.
+Qed.
+
+Lemma parseHost_sp idna_raw c u input ns x : u_sp u = x -> res_sp x (parseHost idna_raw c u input ns).
+Proof.
+  intros Hu. unfold parseHost. cbv zeta.
+  destruct (apply_hostfun (c_pre c) input) as [|b rest] eqn:EI; [exact Hu|].
+  assert (V6 : res_sp x ((if negb (has_suffix [93] (b :: rest)) then (fun k => herr c u IPv6Unclosed true k) else (fun k => k u))
+        (fun u => parseIPv6 c u (drop_last (tl (b :: rest)))))).
+  { destruct (negb (has_suffix [93] (b :: rest))).
+    - apply herr_sp; [exact Hu|]. intros u1 H1. apply parseIPv6_sp. exact H1.
+    - apply parseIPv6_sp. exact Hu. }
+  assert (Rest : res_sp x
+    (if ns then parseOpaqueHost c u (b :: rest)
+      else
+        let domain := DecodePercentEncoded c (b :: rest) in
+        let k_valid (u : url) : res str :=
+          match ToASCII idna_raw c domain with
+          | None =>
+              if c_lax c then Ok u domain
+              else herr c u DomainToASCII true (fun u => Ok u [])
+          | Some asciiDomain =>
+              let forbidden := existsb isForbiddenDomain (runes asciiDomain) in
+              let k_clean (u : url) : res str :=
+                match endsInANumber c u asciiDomain with
+                | (u, true) => parseIPv4 c u asciiDomain
+                | (u, false) => Ok u (apply_hostfun (c_post c) asciiDomain)
+                end in
+              if forbidden then
+                if c_lax c then Ok u (PercentEncodeString c asciiDomain pes_Host)
+                else herr c u DomainInvalidCodePoint true k_clean
+              else k_clean u
+          end in
+        if negb (valid_utf8 domain) then
+          if c_lax c then Ok u (percentEncodeBytes (b :: rest) pes_Host)
+          else herr c u DomainToASCII true k_valid
+        else k_valid u)).
+  { destruct ns; [apply opaque_loop_sp; exact Hu|]. cbv zeta.
+    assert (KV : forall u1, u_sp u1 = x -> res_sp x
+          match ToASCII idna_raw c (DecodePercentEncoded c (b :: rest)) with
+          | None =>
+              if c_lax c then Ok u1 (DecodePercentEncoded c (b :: rest))
+              else herr c u1 DomainToASCII true (fun u => Ok u [])
+          | Some asciiDomain =>
+              if existsb isForbiddenDomain (runes asciiDomain) then
+                if c_lax c then Ok u1 (PercentEncodeString c asciiDomain pes_Host)
+                else herr c u1 DomainInvalidCodePoint true (fun u =>
+                  match endsInANumber c u asciiDomain with
+                  | (u, true) => parseIPv4 c u asciiDomain
+                  | (u, false) => Ok u (apply_hostfun (c_post c) asciiDomain)
+                  end)
+              else match endsInANumber c u1 asciiDomain with
+                  | (u, true) => parseIPv4 c u asciiDomain
+                  | (u, false) => Ok u (apply_hostfun (c_post c) asciiDomain)
+                  end
+          end).
+    { intros u1 H1. destruct (ToASCII idna_raw c (DecodePercentEncoded c (b :: rest))) as [ad|].
+      - assert (KC : forall u2, u_sp u2 = x -> res_sp x
+                  match endsInANumber c u2 ad with
+                  | (u, true) => parseIPv4 c u ad
+                  | (u, false) => Ok u (apply_hostfun (c_post c) ad)
+                  end).
+        { intros u2 H2. pose proof (endsInANumber_sp c u2 ad) as H. destruct (endsInANumber c u2 ad) as [u3 [|]]; cbn [fst] in H.
+          - apply parseIPv4_sp. congruence.
+          - cbn. congruence. }
+        destruct (existsb isForbiddenDomain (runes ad)).
+        + destruct (c_lax c); [exact H1|]. apply herr_sp; [exact H1|]. exact KC.
+        + apply KC. exact H1.
+      - destruct (c_lax c); [exact H1|]. apply herr_sp; [exact H1|]. intros u2 H2; exact H2. }
+    destruct (negb (valid_utf8 (DecodePercentEncoded c (b :: rest)))).
+    - destruct (c_lax c); [exact Hu|]. apply herr_sp; [exact Hu|]. exact KV.
+    - apply KV. exact Hu. }
+  destruct (N.eq_dec b 91) as [->|N].
+  - exact V6.
+  - destruct b as [|p]; [exact Rest|].
+    do 7 (destruct p as [p|p|]; try exact Rest). 
+    exact V6.
+Qed.
+
+Definition out_sp (x : option (list (str * str))) (o : outcome) : Prop :=
+  match o with
+  | Cont m => u_sp (m_url m) = x
+  | RetUrl u | RetErr u _ | RetNilNil u => u_sp u = x
+  | Panic => True
+  end.
+
+Lemma mherr_sp x c u t f k : u_sp u = x -> (forall u1, u_sp u1 = x -> out_sp x (k u1)) -> out_sp x (mherr c u t f k).
+Proof.
+  intros Hu Hk. unfold mherr. pose proof (handleError_sp c u t f) as H.
+  destruct (handleError c u t f) as [u' [e|]]; cbn [fst] in H.
+  - cbn. congruence.
+  - apply Hk. congruence.
+Qed.
+
+Lemma cleanDefaultPort_sp c u : u_sp (cleanDefaultPort c u) = u_sp u.
+Proof.
+  unfold cleanDefaultPort. destruct (getSpecialScheme c (u_scheme u)); [|reflexivity].
+  destruct (u_port u); [|reflexivity]. match goal with |- context [str_eqb ?a ?b] => destruct (str_eqb a b) end; reflexivity.
+Qed.
+
+Ltac leaf :=
+  cbn [out_sp m_url mk u_sp set_input set_scheme set_username set_password set_host set_port set_path set_query
+       set_fragment set_verrs addSegment copy_base_auth];
+  rewrite ?cleanDefaultPort_sp;
+  cbn [out_sp m_url mk u_sp set_input set_scheme set_username set_password set_host set_port set_path set_query
+       set_fragment set_verrs addSegment copy_base_auth];
+  try assumption; try exact I.
+
+Ltac sp1 idna :=
+  lazymatch goal with
+  | |- out_sp _ (mherr _ _ _ _ _) => apply mherr_sp; [leaf | let u := fresh "u" in let H := fresh "Hu" in intros u H]
+  | |- out_sp _ (if ?b then _ else _) => destruct b
+  | |- out_sp _ ((if ?b then _ else _) _) => destruct b
+  | |- out_sp ?x (match parseHost ?i ?c ?u ?b ?n with _ => _ end) =>
+      let H := fresh "PH" in
+      assert (H : res_sp x (parseHost i c u b n)) by (apply parseHost_sp; leaf);
+      destruct (parseHost i c u b n); cbn [res_sp] in H
+  | |- out_sp _ (match ?y with _ => _ end) => destruct y
+  | |- out_sp _ (let '(_, _) := ?y in _) => destruct y
+  | |- u_sp (if ?b then _ else _) = _ => destruct b
+  | |- u_sp (match ?y with _ => _ end) = _ => destruct y
+  | |- _ => progress leaf
+  end.
+
+Section M.
+  Variable idna_raw : str -> str * bool.
+  Variable c : cfg.
+  Variable inp : list rune.
+  Variable base : option url.
+  Variable override : option state.
+
+  Lemma step_sp m x : u_sp (m_url m) = x -> out_sp x (step idna_raw c inp base override m).
+  Proof.
+    intros Hu. destruct m as [st p e b a br pw u]. cbn [m_url] in Hu.
+    unfold step. cbn [m_state m_ptr m_eof m_buf m_at m_br m_pw m_url]. cbv zeta.
+    destruct st.
+    all: repeat sp1 idna_raw.
+  Qed.
+
+  Definition result_sp (x : option (list (str * str))) (r : result) : Prop :=
+    match r with RUrl u | RErr u _ | RNilNil u => u_sp u = x | RPanic | ROutOfFuel => True end.
+
+  Lemma run_sp fuel : forall m x, u_sp (m_url m) = x -> result_sp x (run idna_raw c inp base override fuel m).
+  Proof.
+    induction fuel as [|f IH]; intros m x Hu; cbn [run]; [exact I|].
+    pose proof (step_sp m x Hu) as H. destruct (step idna_raw c inp base override m) as [m'|u|u e|u|]; cbn [out_sp] in H; try exact H.
+    destruct (m_eof m'); [exact H|]. apply IH. exact H.
+  Qed.
+End M.
+
+Section B.
+  Variable idna_raw : str -> str * bool.
+  Variable c : cfg.
+
+  Lemma BasicParser_sp s b u ov : result_sp (u_sp u) (BasicParser idna_raw c s b (Some u) ov).
+  Proof.
+    unfold BasicParser.
+    destruct (remove_tabnl (u_input (set_input u s))) as [i changed]. destruct changed.
+    - pose proof (handleError_sp c (set_input u s) InvalidURLUnit false) as H.
+      destruct (handleError c (set_input u s) InvalidURLUnit false) as [u' [e|]]; cbn [fst] in H.
+      + exact H.
+      + apply run_sp. exact H.
+    - apply run_sp. reflexivity.
+  Qed.
+
+  Lemma after_BP_sp s b u ov u' : after (BasicParser idna_raw c s b (Some u) ov) = Some u' -> u_sp u' = u_sp u.
+  Proof.
+    intros E. pose proof (BasicParser_sp s b u ov) as H.
+    destruct (BasicParser idna_raw c s b (Some u) ov); cbn [after result_sp] in *; try discriminate; congruence.
+  Qed.
+
+  (* a parse result has no parameter list *)
+  Lemma BasicParser_fresh_sp s b ov : result_sp None (BasicParser idna_raw c s b None ov).
+  Proof.
+    unfold BasicParser. destruct (trim_c0space s) as [i changed].
+    assert (K : forall u, u_sp u = None ->
+      result_sp None (let '(i0, changed0) := remove_tabnl (u_input u) in
+        let k := fun u0 : url => run idna_raw c (decode (u_input u0)) (option_map clone b) ov
+                   (fuel_of (length (decode (u_input u0)))) (mk match ov with Some s0 => s0 | None => SchemeStart end (-1) false [] false false false u0) in
+        if changed0 then match handleError c u InvalidURLUnit false with
+                         | (u', Some e) => RErr u' e | (u', None) => k (set_input u' i0) end
+        else k u)).
+    { intros u Hu. destruct (remove_tabnl (u_input u)) as [i0 ch0]. destruct ch0.
+      - pose proof (handleError_sp c u InvalidURLUnit false) as H.
+        destruct (handleError c u InvalidURLUnit false) as [u' [e|]]; cbn [fst] in H.
+        + cbn. congruence.
+        + apply run_sp. cbn. congruence.
+      - apply run_sp. exact Hu. }
+    destruct changed.
+    - pose proof (handleError_sp c (empty_url s) InvalidURLUnit false) as H.
+      destruct (handleError c (empty_url s) InvalidURLUnit false) as [u' [e|]]; cbn [fst] in H.
+      + exact H.
+      + apply K. exact H.
+    - apply K. reflexivity.
+  Qed.
+
+  (* a setter other than SetSearch leaves the parameter list exactly as it is *)
+  Theorem setter_sp_frame w u v u' : w <> 7 -> setter idna_raw c w u v = Some u' -> u_sp u' = u_sp u.
+  Proof.
+    intros W7 E. unfold setter in E.
+    assert (BPc : forall s b u0 ov, after (BasicParser idna_raw c s b (Some u0) ov) = Some u' -> u_sp u0 = u_sp u -> u_sp u' = u_sp u).
+    { intros s b u0 ov H H0. rewrite (after_BP_sp s b u0 ov u' H). exact H0. }
+    assert (SO : forall u0, u_sp u0 = u_sp u -> strip_opaque u0 = Some u' -> u_sp u' = u_sp u).
+    { intros u0 H0 H. unfold strip_opaque in H. destruct (u_opaque u0); [|injection H as <-; exact H0].
+      destruct (u_path u0); [discriminate|]. injection H as <-. exact H0. }
+    assert (Hash : SetHash idna_raw c u v = Some u' -> u_sp u' = u_sp u).
+    { unfold SetHash. destruct v; [|intros H; exact (BPc _ _ _ _ H eq_refl)]. cbv zeta.
+      destruct (negb (is_some (u_query (set_fragment u None)))); [apply SO; reflexivity|]. intros H; injection H as <-. reflexivity. }
+    destruct w as [|p]; [exact (BPc _ _ _ _ E eq_refl)|].
+    destruct p as [[[|[]|]|[| |]|]|[[| |]|[| |]|]|]; try exact (Hash E).
+    all: lazymatch type of E with
+         | SetUsername _ _ _ = _ => unfold SetUsername in E; destruct (no_host_or_file u); injection E as <-; reflexivity
+         | SetPassword _ _ _ = _ => unfold SetPassword in E; destruct (no_host_or_file u); injection E as <-; reflexivity
+         | SetHost _ _ _ _ = _ => unfold SetHost in E; destruct (u_opaque u); [injection E as <-; reflexivity|exact (BPc _ _ _ _ E eq_refl)]
+         | SetHostname _ _ _ _ = _ => unfold SetHostname in E; destruct (u_opaque u); [injection E as <-; reflexivity|exact (BPc _ _ _ _ E eq_refl)]
+         | SetPort _ _ _ _ = _ => unfold SetPort in E; destruct (no_host_or_file u); [injection E as <-; reflexivity|];
+                                  destruct v; [injection E as <-; reflexivity|exact (BPc _ _ _ _ E eq_refl)]
+         | SetPathname _ _ _ _ = _ => unfold SetPathname in E; destruct (u_opaque u); [injection E as <-; reflexivity|exact (BPc _ _ _ _ E eq_refl)]
+         | SetSearch _ _ _ _ = _ => elim W7; reflexivity
+         | _ => idtac
+         end.
+  Qed.
+
+  (* no setter discards the parameter list *)
+  Theorem setter_keeps_sp w u v u' : setter idna_raw c w u v = Some u' -> u_sp u <> None -> u_sp u' <> None.
+  Proof.
+    intros E N. destruct (N.eq_dec w 7) as [->|W7]; [|rewrite (setter_sp_frame w u v u' W7 E); exact N].
+    cbn [setter] in E. unfold SetSearch in E. destruct v.
+    - cbv zeta in E. destruct (u_sp u) as [l|] eqn:Eu; [|elim N; reflexivity].
+      cbn [u_sp set_query] in E. rewrite Eu in E.
+      destruct (negb (is_some (u_fragment (set_sp (set_query u None) (Some []))))).
+      + unfold strip_opaque in E. destruct (u_opaque (set_sp (set_query u None) (Some []))); [|injection E as <-; discriminate].
+        destruct (u_path (set_sp (set_query u None) (Some []))); [discriminate|]. injection E as <-. discriminate.
+      + injection E as <-. discriminate.
+    - cbv zeta in E.
+      match type of E with match after ?r with _ => _ end = _ => destruct (after r) as [u1|]; [|discriminate] end.
+      destruct (u_query u1); [|discriminate]. injection E as <-. discriminate.
+  Qed.
+
+  (* parse and resolution results have no parameter list yet *)
+  Lemma Parse_no_sp s u : Parse idna_raw c s = PUrl u -> u_sp u = None.
+  Proof.
+    unfold Parse. intros E. pose proof (BasicParser_fresh_sp s None None) as H.
+    destruct (BasicParser idna_raw c s None None None); cbn [to_pres result_sp] in *; try discriminate. congruence.
+  Qed.
+  Lemma UrlParse_no_sp b ref u : UrlParse idna_raw c b ref = PUrl u -> u_sp u = None.
+  Proof.
+    unfold UrlParse. intros E. pose proof (BasicParser_fresh_sp ref (Some b) None) as H.
+    destruct (BasicParser idna_raw c ref (Some b) None None); cbn [to_pres result_sp] in *; try discriminate. congruence.
+  Qed.
+End B.
+
 Section Handles.
   Variable idna_raw : str -> str * bool.
   Variable c : cfg.
   Notation h_step := (h_step idna_raw c).
   Notation h_run := (h_run idna_raw c).
   Notation setter := (setter idna_raw c).
-
-  (* the L1 fact this needs (proved below, setter_keeps_sp): a setter never discards the parameter list *)
-  Definition keeps_sp : Prop := forall w u v u', setter w u v = Some u' -> u_sp u <> None -> u_sp u' <> None.
-  Hypothesis KS : keeps_sp.
 
   Lemma h_clone_some h a r : Sep h -> h_clone h a = Some r -> exists u, abs h a = Some u.
   Proof.
@@ -813,7 +1196,7 @@ Section Handles.
       destruct (abs_inv h a u A) as (o & p & Ha & _ & Hsp). destruct (commit_spec h a o u' S Ha) as (o' & I & _ & K).
       split; [intros x; exact (inplace_live h _ a o o' x I)|].
       intros x sl. apply (inplace_sp_of h _ a o o' x sl I). intros N. apply K; [|exact N].
-      apply (KS w u v u' W). destruct (o_sp o) as [sl0|]; [|elim N; reflexivity].
+      apply (setter_keeps_sp idna_raw c w u v u' W). destruct (o_sp o) as [sl0|]; [|elim N; reflexivity].
       destruct Hsp as (s & _ & ->). discriminate.
     - destruct (h_searchparams c h a) as [[h1 sl]|] eqn:C; [|discriminate]. injection E as <-.
       unfold h_searchparams in C. destruct (rd (hu h) a) as [o|] eqn:Ha; [|discriminate].
